@@ -105,20 +105,23 @@ func (h *helper) VerifyGroupForFork(g *types.Group, preGroup *types.Group, paren
 // ---------------------------------------------------------------- the node under test
 
 type node struct {
-	h        *helper
-	alive    bool
-	booted   bool
-	everIds  map[string][]byte // every id ever handed to the chain since the process started (mirror wipe)
-	budget   int               // physical writes still allowed; <0 = unlimited
-	aborted  bool
-	writes   int
-	hist     []string // ops since the last boot (for replay of a finding)
-	nBoot    int
-	inits    int
-	nExec    int
-	pending  []string // results of the two concurrent AddGroup calls, in the order they are reported as cadd lines
-	nConc    int
-	nRestart int
+	h            *helper
+	alive        bool
+	booted       bool
+	everIds      map[string][]byte // every id ever handed to the chain since the process started (mirror wipe)
+	budget       int               // physical writes still allowed; <0 = unlimited
+	aborted      bool
+	writes       int
+	hist         []string // ops since the last boot (for replay of a finding)
+	nBoot        int
+	inits        int
+	nExec        int
+	retained     []*types.Group // objects the chain handed out in the previous raw-store check
+	pending      []string       // results of the two concurrent AddGroup calls, in the order they are reported as cadd lines
+	nConc        int
+	badReads     int64
+	firstBadRead string
+	nRestart     int
 }
 
 func newNode() *node {
@@ -342,6 +345,72 @@ func (n *node) conc(g1, g2 *types.Group) (r1, r2 string, firstIs1 bool) {
 		}
 	}
 	return
+}
+
+// concRm races AddGroup(g) against removeFromCommonAncestor(h) (both released together) while reader
+// goroutines hammer the locked query paths. Every read must be self-consistent (a group returned for
+// height i carries GroupHeight i, a group returned for an id carries that id); returns the result of
+// the add and the number of inconsistent reads.
+func (n *node) concRm(g *types.Group, h uint64) (res string, badReads int64, firstBad string) {
+	gc := core.GetGroupChain()
+	n.everIds[string(g.Id)] = g.Id
+	top := gc.Count() + 2
+	ids := make([][]byte, 0, len(n.everIds))
+	for _, id := range n.everIds {
+		ids = append(ids, id)
+	}
+	n.h.gate = newGate()
+	gt := n.h.gate
+	var wg, rd sync.WaitGroup
+	var stop int32
+	var bad int64
+	var mu sync.Mutex
+	for r := 0; r < 3; r++ {
+		rd.Add(1)
+		go func(r int) {
+			defer rd.Done()
+			defer func() {
+				if x := recover(); x != nil {
+					atomic.AddInt64(&bad, 1)
+					mu.Lock()
+					firstBad = fmt.Sprint("reader panic: ", x)
+					mu.Unlock()
+				}
+			}()
+			for atomic.LoadInt32(&stop) == 0 {
+				for i := uint64(0); i <= top; i++ {
+					if x := gc.GetGroupByHeight(i); x != nil && x.GroupHeight != i {
+						atomic.AddInt64(&bad, 1)
+						mu.Lock()
+						firstBad = fmt.Sprintf("GetGroupByHeight(%d) returned a group with GroupHeight %d", i, x.GroupHeight)
+						mu.Unlock()
+					}
+				}
+				for _, id := range ids {
+					if x := gc.GetGroupById(id); x != nil && string(x.Id) != string(id) {
+						atomic.AddInt64(&bad, 1)
+					}
+					_ = gc.GetSyncGroupsById(id)
+				}
+			}
+		}(r)
+	}
+	wg.Add(2)
+	go func() { defer wg.Done(); res = guard(func() string { return addErr(gc.AddGroup(g)) }) }()
+	go func() {
+		defer wg.Done()
+		gt.wait()
+		guard(func() string {
+			core.VerifGroupChainRemoveFromCommonAncestor(&types.Group{GroupHeight: h, Header: &types.GroupHeader{}})
+			return ""
+		})
+	}()
+	wg.Wait()
+	atomic.StoreInt32(&stop, 1)
+	rd.Wait()
+	n.h.gate = nil
+	n.nConc++
+	return res, atomic.LoadInt64(&bad), firstBad
 }
 
 func listStr(l []string) string {
@@ -592,7 +661,7 @@ func (n *node) exec(line string) string {
 		return "unmodelled"
 	}
 	switch ws[0] {
-	case "add", "rmlast", "rmto", "restart", "crash", "conc":
+	case "add", "rmlast", "rmto", "restart", "crash", "conc", "concrm", "fault":
 		n.hist = append(n.hist, line)
 	}
 	if !n.alive {
@@ -631,6 +700,21 @@ func (n *node) exec(line string) string {
 		}
 		return r1 + " " + r2 + " " + n.status()
 	}
+	if ws[0] == "concrm" && len(ws) == 6 {
+		// concrm <id> <pre> <parent> <create> <h>: AddGroup racing removeFromCommonAncestor(h), with readers
+		g, ok := parseGroup4(ws[1], ws[2], ws[3], ws[4])
+		h, err := strconv.ParseUint(ws[5], 10, 64)
+		if !ok || err != nil {
+			return "bad-op"
+		}
+		r, bad, fb := n.concRm(g, h)
+		n.pending = []string{"cadd " + ws[1] + " " + ws[2] + " " + ws[3] + " " + ws[4], r}
+		n.badReads += bad
+		if bad > 0 && n.firstBadRead == "" {
+			n.firstBadRead = fb
+		}
+		return r + " " + n.status()
+	}
 	if ws[0] == "cadd" && len(ws) == 5 {
 		// one of the two calls of the preceding conc, reported in the sequential order that explains them
 		rej := func(r string) string {
@@ -660,6 +744,34 @@ func (n *node) exec(line string) string {
 		}
 		n.nRestart++
 		return n.start()
+	}
+	if ws[0] == "fault" && len(ws) >= 3 {
+		// fault <j> <mutator>: the j-th physical write of the op returns an error (hook H2b) and the op carries on
+		if !faultHook {
+			return "unmodelled"
+		}
+		j, err := strconv.Atoi(ws[1])
+		if err != nil || j < 0 {
+			return "bad-op"
+		}
+		if ws[2] == "rmto" && core.GetGroupChain().Count() >= 1<<32 {
+			return "unmodelled"
+		}
+		armFault(j)
+		var ok bool
+		res := guard(func() string {
+			var r string
+			r, ok = n.mutate(ws[2:])
+			return r
+		})
+		disarmFault()
+		if strings.HasPrefix(res, "PANIC") {
+			return res
+		}
+		if !ok {
+			return "bad-op"
+		}
+		return res + " " + n.status()
 	}
 	if ws[0] == "crash" && len(ws) >= 3 {
 		k, err := strconv.Atoi(ws[1])
@@ -784,6 +896,130 @@ func (n *node) oracle() (string, string) {
 	return "", ""
 }
 
+// rawOracle compares EVERY query path with what the raw store holds (read through the LevelDB
+// iterator, parsed here, not by the chain): Count/LastGroup vs gcount/gcurrent, GetGroupByHeight
+// for every slot up to count+3 (twice, ascending then descending), GetGroupById for every stored
+// group, the iterator walk and the sync reader. Nothing in it comes from the code under test or
+// from the model, and it must hold in every live state, crash histories included: a cache or a
+// stale in-memory mirror in front of the store shows here. Objects the chain returned to the
+// previous call are scribbled over first (a shared cached object would then read back mutated).
+func (n *node) rawOracle() (string, string) {
+	for _, g := range n.retained {
+		if g != nil {
+			if len(g.Id) > 0 {
+				g.Id[0] ^= 0xff
+			}
+			g.GroupHeight = 424242
+			if g.Header != nil {
+				g.Header.PreGroup = []byte("scribbled")
+			}
+		}
+	}
+	n.retained = n.retained[:0]
+	gc := core.GetGroupChain()
+	kv := core.VerifGroupChainDump()
+	m := map[string][]byte{}
+	for _, e := range kv {
+		m[string(e[0])] = e[1]
+	}
+	parse := func(v []byte) *types.Group {
+		if len(v) == 0 {
+			return nil
+		}
+		var g *types.Group
+		if json.Unmarshal(v, &g) != nil {
+			return nil
+		}
+		return g
+	}
+	var rawCount uint64
+	if v, ok := m["gcount"]; ok && len(v) >= 8 {
+		rawCount = new(big.Int).SetBytes(v[:8]).Uint64()
+	}
+	if c := gc.Count(); c != rawCount {
+		return "mem-ne-store:count", fmt.Sprintf("Count()=%d but the store's gcount=%d", c, rawCount)
+	}
+	rawCur := m["gcurrent"]
+	if l := gc.LastGroup(); l == nil || string(l.Id) != string(rawCur) || gstr(l) != gstr(parse(m[string(rawCur)])) {
+		return "mem-ne-store:last", fmt.Sprintf("LastGroup()=%s but the store's gcurrent=%s -> %s", gstr(l), hx.Hex(rawCur), gstr(parse(m[string(rawCur)])))
+	}
+	if rawCount < 1<<20 {
+		top := rawCount + 3
+		slot := func(i uint64) *types.Group {
+			v, ok := m[string(core.VerifGroupChainHeightKey(i))]
+			if !ok {
+				return nil
+			}
+			return parse(m[string(v)])
+		}
+		for pass := 0; pass < 2; pass++ {
+			for k := uint64(0); k <= top; k++ {
+				i := k
+				if pass == 1 {
+					i = top - k
+				}
+				got := gc.GetGroupByHeight(i)
+				n.retained = append(n.retained, got)
+				if gstr(got) != gstr(slot(i)) {
+					return "query-ne-store:byheight", fmt.Sprintf("GetGroupByHeight(%d)=%s but the store's slot %d leads to %s", i, gstr(got), i, gstr(slot(i)))
+				}
+			}
+		}
+		var want []string
+		for i := uint64(0); i <= top; i++ {
+			v, ok := m[string(core.VerifGroupChainHeightKey(i))]
+			if !ok {
+				break
+			}
+			want = append(want, gstr(parse(m[string(v)])))
+		}
+		var got []string
+		for _, g := range core.VerifGroupChainSyncByHeight(0, int(top)+1) {
+			got = append(got, gstr(g))
+		}
+		if strings.Join(got, " ") != strings.Join(want, " ") {
+			return "query-ne-store:sync", fmt.Sprintf("GetSyncGroupsByHeight(0,%d)=[%s] but the store's slots give [%s]", top+1, strings.Join(got, " "), strings.Join(want, " "))
+		}
+	}
+	for k, v := range m {
+		if g := parse(v); g != nil && len(v) > 0 && v[0] == '{' {
+			got := gc.GetGroupById([]byte(k))
+			n.retained = append(n.retained, got)
+			if gstr(got) != gstr(g) {
+				return "query-ne-store:byid", fmt.Sprintf("GetGroupById(%s)=%s but the store holds %s", hx.Hex([]byte(k)), gstr(got), gstr(g))
+			}
+		}
+	}
+	for _, id := range n.everIds {
+		if _, ok := m[string(id)]; !ok {
+			if got := gc.GetGroupById(id); got != nil {
+				return "query-ne-store:byid", fmt.Sprintf("GetGroupById(%s)=%s but the store has no such key", hx.Hex(id), gstr(got))
+			}
+		}
+	}
+	// iterator walk vs the raw predecessor walk
+	var rawWalk []string
+	cur := rawCur
+	for steps := 0; steps <= len(kv); steps++ {
+		g := parse(m[string(cur)])
+		if g == nil || g.Header == nil {
+			break
+		}
+		rawWalk = append(rawWalk, hx.Hex(g.Id))
+		cur = g.Header.PreGroup
+	}
+	if gs, ok := n.iterIds(); ok && len(rawWalk) <= len(kv) {
+		var w []string
+		for _, g := range gs {
+			w = append(w, hx.Hex(g.Id))
+		}
+		if strings.Join(w, " ") != strings.Join(rawWalk, " ") {
+			return "query-ne-store:iter", fmt.Sprintf("Iterator walk [%s] but the store's predecessor links give [%s]", strings.Join(w, " "), strings.Join(rawWalk, " "))
+		}
+	}
+	return "", ""
+}
+
 func first(gs []*types.Group) *types.Group {
 	if len(gs) == 0 {
 		return nil
@@ -804,6 +1040,7 @@ type gen struct {
 	part   int
 	parts  int
 	n      *node
+	seqNo  int
 }
 
 // conc: two concurrent AddGroup calls on top of the current last; the outcome goes to the
@@ -867,6 +1104,13 @@ func (g *gen) probes() {
 		}
 	}
 	g.emit(fmt.Sprintf("syncat %d %d", g.r.Intn(cnt+1), 1+g.r.Intn(8)))
+	if g.r.Chance(1, 6) {
+		edges := []string{"4294967295", "4294967296", "9223372036854775807", "9223372036854775808", "18446744073709551615",
+			"7449927343006903923", "7449927343006903925", "72057594037927936", "255", "256"}
+		e := edges[g.r.Intn(len(edges))]
+		g.emit("byheight " + e)
+		g.emit("syncat " + e + " 2")
+	}
 	if bootHook {
 		g.emit("top")
 		g.emit(fmt.Sprintf("below %d", g.r.Intn(int(g.create)+2)))
@@ -906,6 +1150,9 @@ func (g *gen) mutator(allowCrash bool) string {
 		}
 		return g.listed[r.Intn(len(g.listed))]
 	}
+	if r.Chance(1, 25) {
+		g.create = []uint64{1 << 32, 1 << 53, 1 << 61, 4611686018427387903}[r.Intn(4)] + g.create%1000
+	}
 	var op string
 	switch x := r.Intn(100); {
 	case x < 45: // well-formed add: fresh-ish id, pre = last, parent listed
@@ -921,6 +1168,9 @@ func (g *gen) mutator(allowCrash bool) string {
 	default:
 		op = fmt.Sprintf("rmto %d", r.Intn(len(g.listed)+2))
 	}
+	if allowCrash && faultHook && r.Chance(1, 12) {
+		return fmt.Sprintf("fault %d %s", r.Intn(5), op)
+	}
 	if allowCrash && r.Chance(1, 5) {
 		op = fmt.Sprintf("crash %d %s", r.Intn(6), op)
 		if strings.Contains(op, "rmto") && r.Bool() {
@@ -930,8 +1180,47 @@ func (g *gen) mutator(allowCrash bool) string {
 	return op
 }
 
+// boundaryPool = the base pool plus ids with the shapes random sampling never hits: 32-byte ids
+// (the real size), 31/33, 7/9 (8 is the height-key length), leading and trailing zero bytes, a single
+// zero byte, an id that is a prefix of another id, an id starting with the fork prefix bytes.
+func (g *gen) boundaryPool() []string {
+	r := g.r
+	pool := append([]string{}, idPool...)
+	mk := func(n int, lead, trail bool) string {
+		b := r.Bytes(n)
+		if b[0] == 0x20 || b[0] == '{' || b[0] == '\t' || b[0] == '\n' || b[0] == '\r' {
+			b[0] = 0x81 // never the first byte of a JSON document (see Model: ids are not JSON)
+		}
+		if lead {
+			b[0] = 0
+			if n > 2 {
+				b[1] = 0
+			}
+		}
+		if trail {
+			b[n-1] = 0
+		}
+		return hx.Hex(b)
+	}
+	pool = append(pool, mk(32, false, false), mk(32, true, false), mk(32, false, true))
+	for _, n := range []int{1, 7, 9, 31, 33} {
+		pool = append(pool, mk(n, r.Bool(), r.Bool()))
+	}
+	pool = append(pool, "00", "a1a1", "466f726b"+mk(4, false, false))
+	// keep the pool small enough that ids repeat within a sequence
+	for len(pool) > 12 {
+		i := len(idPool) + r.Intn(len(pool)-len(idPool))
+		pool = append(pool[:i], pool[i+1:]...)
+	}
+	return pool
+}
+
 func (g *gen) randomSequence(maxOps int, allowCrash bool) {
 	g.pool = idPool
+	if g.seqNo%2 == 1 {
+		g.pool = g.boundaryPool()
+	}
+	g.seqNo++
 	g.boot(1 + g.r.Intn(3))
 	g.probes()
 	n := 1 + g.r.Intn(maxOps)
@@ -1010,6 +1299,85 @@ func (g *gen) bootCrashes() int {
 	return cnt
 }
 
+// writeFaults: every single failing write of one add, one remove and a two-step fork-switch removal,
+// each followed by queries, a retry of the operation and a restart.
+func (g *gen) writeFaults() int {
+	if !faultHook {
+		return 0
+	}
+	cnt := 0
+	for j := 0; j < 4; j++ {
+		g.pool = idPool
+		g.boot(1)
+		g.emit(fmt.Sprintf("fault %d add a1 %s %s 1", j, g.last(), g.listed[0]))
+		g.resync()
+		g.probes()
+		g.emit(fmt.Sprintf("add a1 %s %s 1", "9001", g.listed[0])) // retry
+		g.resync()
+		g.probes()
+		g.emit("restart")
+		g.resync()
+		if g.alive {
+			g.probes()
+		}
+		cnt++
+	}
+	for j := 0; j < 8; j++ {
+		g.pool = idPool
+		g.boot(1)
+		g.emit("add a1 9001 9001 1")
+		g.emit("add b1b2 a1 9001 2")
+		if j < 4 {
+			g.emit(fmt.Sprintf("fault %d rmlast", j))
+		} else {
+			g.emit(fmt.Sprintf("fault %d rmto 0", j))
+		}
+		g.resync()
+		g.probes()
+		g.emit("rmlast") // retry
+		g.resync()
+		g.probes()
+		g.emit("restart")
+		g.resync()
+		if g.alive {
+			g.probes()
+		}
+		cnt++
+	}
+	return cnt
+}
+
+// concRm: AddGroup on top of the last group racing the fork-switch removal down to height h < top.
+// Either order leaves the chain at l[0..h] (add first: accepted, then removed; removal first: the add
+// is rejected), so the pair is written as cadd+rmto or rmto+cadd according to the add's result, and
+// the rmto line re-executed by the harness is a no-op on the real chain.
+func (g *gen) concRm() {
+	if len(g.listed) < 2 {
+		return
+	}
+	r := g.r
+	g.create++
+	h := r.Intn(len(g.listed) - 1)
+	id := g.pool[r.Intn(len(g.pool))]
+	line := fmt.Sprintf("concrm %s %s %s %d %d", id, g.last(), g.listed[0], g.create, h)
+	res := g.n.exec(line)
+	if len(g.n.pending) < 2 {
+		return
+	}
+	cadd := g.n.pending[0]
+	rm := fmt.Sprintf("rmto %d", h)
+	if strings.HasPrefix(res, "ok") {
+		g.emit(cadd)
+		g.emit(rm)
+	} else {
+		g.emit(rm)
+		g.emit(cadd)
+	}
+	g.emit("count")
+	g.emit("iter")
+	g.emit("dump")
+}
+
 // concStress: many rounds of two concurrent AddGroup calls on one chain, shrinking it in between.
 func (g *gen) concStress(rounds int) {
 	g.pool = idPool
@@ -1019,6 +1387,13 @@ func (g *gen) concStress(rounds int) {
 		g.resync()
 		if !g.alive {
 			return
+		}
+		if i%4 == 1 {
+			g.concRm()
+			g.resync()
+			if !g.alive {
+				return
+			}
 		}
 		if i%3 == 2 {
 			// grow the chain a little so that later rounds race on a longer list
@@ -1231,6 +1606,26 @@ func main() {
 	var viols []viol
 	seenKey := map[string]bool{}
 	evals, mutators := 0, 0
+	// report records a violation class once and makes it visible at once: printed (search mode) or
+	// appended to <ops>.viols (correspondence mode) and synced, so that a later crash, hang or
+	// time-out of this process cannot lose it.
+	var violFile *os.File
+	report := func(key, desc string) {
+		if seenKey[key] {
+			return
+		}
+		seenKey[key] = true
+		v := viol{Key: key, Desc: desc, History: append([]string{}, n.hist...)}
+		viols = append(viols, v)
+		b, _ := json.Marshal(v)
+		if mode == "search" {
+			fmt.Println("VIOL " + string(b))
+		} else if violFile != nil {
+			violFile.WriteString(string(b) + "\n")
+			violFile.Sync()
+		}
+	}
+	faulted := false  // some write of the current history failed with an error
 	crashed := false  // some op of the current history was actually cut by a crash
 	inDomain := false // oracle on: the generator running now produces well-formed histories only
 	broken := false   // the current history already violated the property: later symptoms derive from it
@@ -1248,10 +1643,6 @@ func main() {
 				op, _ := curOp.Load().(string)
 				if mode == "search" {
 					v := viol{Key: "hang", Desc: "operation does not terminate within 20 s: " + op, History: append([]string{}, n.hist...)}
-					for _, pv := range viols {
-						pb, _ := json.Marshal(pv)
-						fmt.Println("VIOL " + string(pb))
-					}
 					b, _ := json.Marshal(v)
 					fmt.Println("VIOL " + string(b))
 					fmt.Printf("SEARCH {\"evaluations\":%d,\"mutators\":%d,\"boots\":%d,\"restarts\":%d,\"exhaustive_sequences\":0}\n", evals, mutators, n.nBoot, n.nRestart)
@@ -1280,24 +1671,51 @@ func main() {
 		if f[0] == "boot" && n.alive && !seenKey["height-key-gcurrent"] {
 			// the height whose 8-byte key is the ASCII string "gcurrent" (0x6763757272656e74)
 			if h := core.GetGroupChain().GetGroupByHeight(0x6763757272656e74); h != nil {
-				seenKey["height-key-gcurrent"] = true
-				viols = append(viols, viol{Key: "height-key-gcurrent",
-					Desc:    fmt.Sprintf("Count()=%d but GetGroupByHeight(7449927343006903924)=%s (that height's key is \"gcurrent\")", core.GetGroupChain().Count(), gstr(h)),
-					History: []string{op, "byheight 7449927343006903924"}})
+				n.hist = append(n.hist, "byheight 7449927343006903924")
+				report("height-key-gcurrent", fmt.Sprintf("Count()=%d but GetGroupByHeight(7449927343006903924)=%s (that height's key is \"gcurrent\")", core.GetGroupChain().Count(), gstr(h)))
+				n.hist = n.hist[:len(n.hist)-1]
 			}
 		}
 		switch f[0] {
 		case "boot":
-			broken, crashed = false, false
+			broken, crashed, faulted = false, false, false
 		case "bootcrash":
-			broken, crashed = false, strings.HasPrefix(res, "crashed")
-		case "add", "rmlast", "rmto", "restart", "crash", "cadd":
+			broken, crashed, faulted = false, strings.HasPrefix(res, "crashed"), false
+		case "add", "rmlast", "rmto", "restart", "crash", "cadd", "fault":
 		default:
 			return res
 		}
 		mutators++
+		// a store write that failed with an error: class = operation + which of its four writes + symptom
+		prefix := ""
+		if faulted {
+			// memory and store already diverged at an earlier failed write: everything later derives from it
+			return res
+		}
+		if f[0] == "fault" && len(f) >= 3 {
+			what := "remove"
+			if f[2] == "add" {
+				what = "save"
+			}
+			j, _ := strconv.Atoi(f[1])
+			prefix = fmt.Sprintf("writefault:%s:w%d:", what, j%4)
+		}
 		if f[0] == "crash" && strings.HasPrefix(res, "crashed") {
 			crashed = true
+		}
+		if res == "bad-op" {
+			// a well-formed op of an in-domain generator that the harness itself refuses: broken tie, not agreement
+			report("bad-op-in-domain", "generator produced an op the harness cannot run: "+op)
+		}
+		if n.alive && !strings.HasPrefix(res, "PANIC") {
+			// holds in EVERY live state (also after crashes, also in histories already marked broken)
+			if k, d := n.rawOracle(); k != "" {
+				report(prefix+k, d)
+				if prefix != "" {
+					faulted, broken = true, true
+					return res
+				}
+			}
 		}
 		if broken {
 			return res
@@ -1311,33 +1729,32 @@ func main() {
 			evals++
 			key, desc = n.oracle()
 		}
+		if prefix != "" {
+			faulted = true // whatever shows later in this history derives from the failed write
+		}
 		if key == "" {
 			return res
 		}
 		broken = true
+		// class = cut operation + number of writes that got through + SYMPTOM, so that a different
+		// failure at an already recorded crash point is a new key
 		if f[0] == "bootcrash" && strings.HasPrefix(res, "crashed") {
-			// class = after how many writes of a genesis save the (last) cut fell
-			desc = key + ": " + desc
-			key = fmt.Sprintf("crash:firstboot:k%d", (n.writes-w0)%4)
+			k := (n.writes - w0) % 4
 			if strings.HasPrefix(res, "crashed crashed") {
 				kk, _ := strconv.Atoi(f[2])
-				key = fmt.Sprintf("crash:firstboot:k%d", kk%4)
+				k = kk % 4
 			}
+			key = fmt.Sprintf("crash:firstboot:k%d:%s", k, key)
 		} else if f[0] == "crash" && strings.HasPrefix(res, "crashed") && len(f) >= 3 {
-			// class = which operation was cut and after how many of its four writes
 			what := "remove"
 			if f[2] == "add" {
 				what = "save"
 			}
-			desc = key + ": " + desc
-			key = fmt.Sprintf("crash:%s:k%d", what, (n.writes-w0)%4)
-		} else if crashed {
+			key = fmt.Sprintf("crash:%s:k%d:%s", what, (n.writes-w0)%4, key)
+		} else if crashed && prefix == "" {
 			key = "crash:latent:" + key
 		}
-		if !seenKey[key] {
-			viols = append(viols, viol{Key: key, Desc: desc, History: append([]string{}, n.hist...)})
-		}
-		seenKey[key] = true
+		report(prefix+key, desc)
 		return res
 	}
 	g := &gen{r: r, emit: emit, pool: idPool, n: n}
@@ -1348,10 +1765,12 @@ func main() {
 		if err != nil {
 			panic(err)
 		}
+		violFile, _ = os.Create(a["ops"] + ".viols")
 		defer out.Close()
 	}
 
 	nCorpus := 0
+	var firstRun [][2]string // corpus ops and their answers at the very start of the process
 	nSeq := hx.ArgInt(a, "seqs", 60)
 	maxOps := hx.ArgInt(a, "maxops", 30)
 	depth := hx.ArgInt(a, "depth", 3)
@@ -1371,6 +1790,7 @@ func main() {
 		inDomain = true
 		nEx = g.exhaustive(depth, true) // shortest histories first: they make the replay of a finding
 		g.bootCrashes()
+		g.writeFaults()
 		for i := 0; i < nSeq; i++ {
 			g.randomSequence(maxOps, i%3 != 0)
 		}
@@ -1379,8 +1799,9 @@ func main() {
 		if part == 0 {
 			for _, f := range corpusFiles() {
 				for _, l := range readLines(f) {
-					emit(l)
+					first := emit(l)
 					nCorpus++
+					firstRun = append(firstRun, [2]string{l, first})
 				}
 			}
 			g.malformed()
@@ -1389,6 +1810,7 @@ func main() {
 		nEx = g.exhaustive(depth, true)
 		if part == 0 {
 			g.bootCrashes()
+			g.writeFaults()
 		}
 		for i := 0; i < nSeq; i++ {
 			g.randomSequence(maxOps, i%3 != 0)
@@ -1396,11 +1818,22 @@ func main() {
 		g.concStress(hx.ArgInt(a, "conc", 40))
 	}
 
-	if mode == "search" {
-		for _, v := range viols {
-			b, _ := json.Marshal(v)
-			fmt.Println("VIOL " + string(b))
+	// process-local history: the corpus scripts, which ran first in a fresh process, are run again
+	// now — after tens of thousands of other operations, rejected adds, crashes, races and write faults
+	// in this same process — and must answer exactly as they did (each script starts with a boot = wipe).
+	inDomain = false
+	for i, p := range firstRun {
+		again := n.exec(p[0])
+		if again != p[1] && !strings.HasPrefix(p[0], "cadd") {
+			n.hist = []string{fmt.Sprintf("corpus op #%d: %s", i, p[0])}
+			report("history-dependent-answer", fmt.Sprintf("op %q answered %q in a fresh process and %q at the end of this process", p[0], p[1], again))
+			break
 		}
+	}
+	if n.badReads > 0 {
+		report("concurrent-read-inconsistent", fmt.Sprintf("%d reads that ran concurrently with AddGroup / removeFromCommonAncestor were not self-consistent; first: %s", n.badReads, n.firstBadRead))
+	}
+	if mode == "search" {
 		fmt.Printf("SEARCH {\"evaluations\":%d,\"mutators\":%d,\"boots\":%d,\"restarts\":%d,\"exhaustive_sequences\":%d}\n", evals, mutators, n.nBoot, n.nRestart, nEx)
 		return
 	}
